@@ -16,6 +16,9 @@ use super::{Deserializable, DeserializationError};
 // BYTE READER TRAIT
 // ================================================================================================
 
+/// Upper bound on the number of elements [ByteReader::read_many] reserves space for up front.
+const MAX_PREALLOCATED_ELEMENTS: usize = 4096;
+
 /// Defines how primitive values are to be read from `Self`.
 ///
 /// Whenever data is read from the reader using any of the `read_*` functions, the reader advances
@@ -191,7 +194,9 @@ pub trait ByteReader {
         Self: Sized,
         D: Deserializable,
     {
-        let mut result = Vec::with_capacity(num_elements);
+        // `num_elements` usually comes from untrusted input: do not let it drive the allocation, the
+        // vector grows as elements are actually read
+        let mut result = Vec::with_capacity(num_elements.min(MAX_PREALLOCATED_ELEMENTS));
         for _ in 0..num_elements {
             let element = D::read_from(self)?;
             result.push(element)
